@@ -109,6 +109,59 @@ CHECKS["C07"] = dict(
         "unchanged) both for a lens rebuilt from the scaled recipe and for the lens produced by scale_system. Calibration with corrupted pairs.",
    technique="TLA+ Lens machine (ScaleSystem action) + TLC MC and behaviour replay; metamorphic pair validation by TLC (dyadic arithmetic)",
    ref="6 (C07)")
+CHECKS["C06"] = dict(
+   text="spec/Stigmatic.tla states the closed-form aberration-free families (paraboloid, ellipsoid, hyperboloid/Cassegrain, plano-hyperbolic and elliptic "
+        "refractors, sphere imaging its centre, aplanatic points) as relations between prescription and image point; MC_Stigmatic checks on exact "
+        "integers (120 cases) that the focus distances and constant-path identities hold and that wrong foci/conics are rejected. Every configuration of a "
+        "grid (quick 176, thorough all 2 670: radii of both signs, indices {4/3,3/2,2,3,4}, Pythagorean eccentricities, down to f/0.5) is built through the "
+        "public API; TLC judges the prescription read back, every ray of a 127-ray bundle (image point, equal path), Wavefront data and Strehl ratio, and "
+        "the per-surface events also go through Trace_RayStep. A traced k = -1.001 paraboloid must be rejected (calibration).",
+   technique="TLA+ closed-form model + TLC MC on exact integers; exhaustive grid of configurations traced and judged by TLC (dyadic arithmetic)",
+   ref="6 (C06)")
+CHECKS["C09"] = dict(
+   text="spec/Wavefront.tla states the OPD definition (chief-ray reference sphere through the paraxial exit pupil, optical path in image space, object-space "
+        "wavefront term, RMS definition); MC_Wavefront (636 rational cases) accepts perfect/defocused witnesses and rejects sign, root, centre, tilt and "
+        "index variants. Trace_Wavefront validates Wavefront.data, OPD.rms, OPD fans, RMS-vs-field and the OPD_difference operand against independently "
+        "traced rays of the same samples for random lenses and samples (9 distributions, finite and infinite objects, exit pupils of both signs); the "
+        "back-propagation distance is a certificate TLC verifies on the sphere equation. Calibration with 100+ corruptions per run.",
+   technique="TLA+ law module + TLC MC on rational witnesses; code->spec trace validation (dyadic arithmetic) + calibration",
+   ref="6 (C09)")
+CHECKS["C12"] = dict(
+   text="spec/Analyses.tla states (1) the sampling contract of each analysis class as an index machine - MC_Analyses checks 2 892 cases (8 classes, "
+        "explicit and default field/wavelength lists, every primary position) incl. a negative config showing that choosing the reference by the lens's "
+        "primary index violates it; the cases are replayed into the code (shapes, keys, no exception) - and (2) every reported quantity as a polynomial "
+        "function of ray records: centroids, RMS and geometric radii, fans, encircled energy, distortion and grid distortion, pupil aberration, "
+        "Coddington's equations for field curvature on spherical lenses, real-ray operands. Trace_Analyses validates .data of each analysis object "
+        "against independently traced rays for random lenses and samples; calibration every run.",
+   technique="TLA+ index machine + TLC MC (with negative config); spec->code replay of the contract; code->spec trace validation (dyadic arithmetic)",
+   ref="6 (C12)")
+CHECKS["C14"] = dict(
+   text="spec/Optimizer.tla models the optimisation protocol with scipy as a nondeterministic environment (Start, Evaluate, EvaluateRemote, Return, "
+        "Finish, Undo); MC_Optimizer checks LensAtReturned, MeritAtReturned, NotWorse, WithinBounds, PickupsHold and UndoRestores exhaustively (3 points, "
+        "27 merit functions, both worker modes) and two negative configs (no Finish step; undo without update) that violate them. Trace_Optimizer "
+        "validates real runs of all five front ends (generic, least squares, dual annealing, differential evolution in-process and multi-process, "
+        "compensator) with variables of every type, logging every callback evaluation: merit identity, variable handle laws, bounds units, lens at the "
+        "returned solution, not worse than start, within bounds, pickups/solves, undo. scipy's contract is an explicit environment assumption: runs scipy "
+        "reports as failed are noted, not judged on it. Calibration with corrupted records.",
+   technique="TLA+ protocol model with environment + TLC MC incl. negative configs; code->spec trace validation of real optimiser runs (dyadic)",
+   ref="6 (C14)")
+CHECKS["C15"] = dict(
+   text="spec/Tolerancing.tla models the sensitivity and Monte-Carlo loops (Reset, Apply, Compensate, Evaluate with failure injection, Record, EndRun); "
+        "MC_Tolerancing checks RowsTrue, NominalReproduced, Reproducible, EndStateNominal and ResetRestores exhaustively over sampler kinds, random "
+        "streams and failure sets, with negative configs (no final reset; no per-trial reset). Trace_Tolerancing validates real SensitivityAnalysis and "
+        "MonteCarlo runs: each row is re-derived on a from_dict(to_dict()) copy of the nominal lens from the recorded perturbation values, nominal "
+        "reproduction, reproducibility of seeded samplers between two sessions, end state and reset. Calibration with corrupted records.",
+   technique="TLA+ loop protocol + TLC MC incl. negative configs; code->spec trace validation of real tolerancing runs (dyadic)",
+   ref="6 (C15)")
+CHECKS["C20"] = dict(
+   text="spec/ZemaxReader.tla and spec/Zemax.tla state the reader as a line-dispatch machine (one action per keyword) and the prescription a well-formed "
+        "file denotes; MC_Zemax enumerates well-formed files exhaustively on six grids (quick 97 117 states; thorough 1.4 million) plus simulated files up "
+        "to 30 surfaces / 12 wavelengths and checks the laws (radius, vertex, conic, PARM, stop, medium, wavelengths, fields, aperture, NSC rejected). "
+        "Each generated file is rendered in several number styles and line endings, written in UTF-8 and UTF-16, loaded with load_zemax_file and compared "
+        "exactly with the prescription TLC computed (quick 3 400 files / 7 480 loads), paraxial values against a lens built from the same numbers. "
+        "Trace_Zemax validates the repository's .zmx files and random decimal texts. Calibration every run.",
+   technique="TLA+ line-dispatch machine + TLC exhaustive MC; spec->code replay of generated files in two encodings; code->spec trace validation",
+   ref="6 (C20)")
 NOT_YET = "check not built yet in this session (see DESIGN.md section 6 for the plan)"
 def main():
     props = [json.loads(l)["id"] for l in open(os.path.join(HERE, "properties.jsonl"))]
